@@ -459,7 +459,8 @@ def do_step(ctx, step, log):
                 return "skip"
             _batch_add(ctx, b, m, ctx.images[t], mol, uids, t, rg, explicit=rg.random() < 0.2)
         else:
-            si = pick(ctx, r[1], lambda x: is_loader(x) and x.binf == 1 and x is not m)
+            # a molecule (uid) is registered at most once per loader: the model identifies rows by uid
+            si = pick(ctx, r[1], lambda x: is_loader(x) and x.binf == 1 and x is not m and not (set(x.rows) & set(m.rows)))
             if si is None:
                 return "skip"
             src, sm = ctx.pool[si]
@@ -473,7 +474,11 @@ def do_step(ctx, step, log):
         cands = [i for i, (o, mm) in enumerate(ctx.pool) if is_single(mm) and mm.binf == 1]
         if len(cands) < 1:
             return "skip"
-        chosen = [cands[int(r[k] * len(cands)) % len(cands)] for k in range(min(2, len(cands)))]
+        chosen = []
+        for k in range(min(2, len(cands))):
+            c_ = cands[int(r[k] * len(cands)) % len(cands)]
+            if all(not (set(ctx.pool[c_][1].rows) & set(ctx.pool[o_][1].rows)) for o_ in chosen):
+                chosen.append(c_)
         before = pool_digests(ctx)
         b = BatchLoader.from_loaders([ctx.pool[i][0] for i in chosen], **loader_kw(ctx))
         m = LModel("batch", [], w["order"], w["scale"], w["box"], w["corner_safe"], ids=[], images={})
